@@ -304,6 +304,22 @@ fn key_from_parts() {
     assert_ne!(k("http://example.com").unwrap(), k("http://example.com:81").unwrap());
     assert_ne!(k("http://example.com").unwrap(), k("http://example.org").unwrap());
     assert_eq!(k("http://example.com/a").unwrap(), k("http://example.com/b?c").unwrap());
+    // origins that differ in scheme or in *effective* port never share a key (keys of one origin may coincide or not)
+    let mut grid = vec![];
+    for scheme in ["http", "https"] {
+        for port in [None, Some(80u16), Some(443), Some(8080)] {
+            let uri = match port { Some(p) => format!("{scheme}://example.com:{p}/"), None => format!("{scheme}://example.com/") };
+            let eff = port.unwrap_or(if scheme == "https" { 443 } else { 80 });
+            grid.push((uri, scheme, eff));
+        }
+    }
+    for (ua, sa, pa) in &grid {
+        for (ub, sb, pb) in &grid {
+            if sa != sb || pa != pb {
+                assert_ne!(k(ua).unwrap(), k(ub).unwrap(), "{ua} and {ub} are different origins but share a pool key");
+            }
+        }
+    }
     for uri in URIS {
         let r = std::panic::catch_unwind(|| k(uri).is_ok()).unwrap_or_else(|_| panic!("UriKey::try_from panicked for {uri}"));
         assert_eq!(r, parts(uri).uri.scheme().is_some(), "{uri}");
